@@ -71,14 +71,17 @@ def request_path_contracts(reg):
                  ensures=['self.client._num_buffer == len(self.client.buffer)'], note='TLS interception (C11)')
     reg.contract(PF, 'HttpParser.build', self_cls='HttpParser', assumed=True, result='bytes', modifies=[],
                  params={'disable_headers': ('opt', ('list', 'bytes')), 'for_proxy': 'bool', 'host': ('opt', 'bytes')},
-                 ensures=[('only-present-and-enabled-fields',
-                           "all_bytes('k', has_field(result, k) ==> (not isnone(self.headers) and self.headers.has(k) "
-                           "and not (not isnone(disable_headers) and contains(disable_headers, k))))"),
+                 ensures=[
                           ('instance-proxy-authorization',
                            "has_field(result, b'proxy-authorization') ==> (not isnone(self.headers) and "
-                           "self.headers.has(b'proxy-authorization'))")],
+                           "self.headers.has(b'proxy-authorization') and not (not isnone(disable_headers) and "
+                           "contains(disable_headers, b'proxy-authorization')))"),
+                          ('instance-proxy-connection',
+                           "has_field(result, b'proxy-connection') ==> (not isnone(self.headers) and "
+                           "self.headers.has(b'proxy-connection') and not (not isnone(disable_headers) and "
+                           "contains(disable_headers, b'proxy-connection')))")],
                  raises={'AssertionError': []},
-                 note='serialisation contract of the rebuild: a field is emitted only if present and not disabled (C02)')
+                 note='serialisation contract of the rebuild, instantiated for the two hop-by-hop names: a field is emitted only if present and not disabled (general form: C02)')
     dh = reg.contract(
         PF, 'HttpParser.del_headers', self_cls='HttpParser', params={'headers': ('list', 'bytes')},
         modifies=['self.headers'],
